@@ -5,6 +5,7 @@ import (
 	"encoding/hex"
 	"fmt"
 	"strconv"
+	"strings"
 	"sync/atomic"
 	"time"
 
@@ -74,8 +75,9 @@ type c08L1Deposit struct {
 }
 type c08L2Send struct{}
 type c08L2Withdraw struct {
-	who   string
-	denom string
+	upperTo bool // the L1 recipient written in upper-case bech32 (valid, unusual)
+	who     string
+	denom   string
 }
 type c08Relay struct{ dup bool }
 type c08Propose struct{}
@@ -129,9 +131,10 @@ func (y *c08Sys) Letters(s *c08State) []engine.Letter {
 	// (two messages, the withdrawal first: every hook message's events have to reach the relayer)
 	ls = append(ls, engine.Letter{Name: "L1Deposit(to=alice,2uxx,data=hook[alice withdraws 1l2x; alice sends 1l2x to bob])", Data: c08L1Deposit{alice, 2, "uxx", []byte("HOOK:withdraw")}})
 	for _, who := range []string{"alice", "bob"} {
-		ls = append(ls, engine.Letter{Name: fmt.Sprintf("L2Withdraw(%s,1l2x)", who), Data: c08L2Withdraw{who, "uxx"}})
+		ls = append(ls, engine.Letter{Name: fmt.Sprintf("L2Withdraw(%s,1l2x)", who), Data: c08L2Withdraw{who: who, denom: "uxx"}})
 	}
-	ls = append(ls, engine.Letter{Name: "L2Withdraw(alice,1l2y)", Data: c08L2Withdraw{"alice", "uyy"}})
+	ls = append(ls, engine.Letter{Name: "L2Withdraw(alice,1l2y)", Data: c08L2Withdraw{who: "alice", denom: "uyy"}})
+	ls = append(ls, engine.Letter{Name: "L2Withdraw(alice,1l2x,to=ALICE-IN-UPPER-CASE)", Data: c08L2Withdraw{who: "alice", denom: "uxx", upperTo: true}})
 	if s.relayed < len(s.deps) {
 		ls = append(ls, engine.Letter{Name: "RelayNextDeposit", Data: c08Relay{false}})
 	}
@@ -246,7 +249,11 @@ func (y *c08Sys) apply(s, c *c08State, data any) (string, *engine.Violation) {
 		return "ok", nil
 	case c08L2Withdraw:
 		who := world.Addr(d.who).String()
-		res := s.w2.Deliver(c.c2, opchildtypes.NewMsgInitiateTokenWithdrawal(who, who, sdk.NewInt64Coin(l2of(d.denom), 1)))
+		to := who
+		if d.upperTo {
+			to = strings.ToUpper(who)
+		}
+		res := s.w2.Deliver(c.c2, opchildtypes.NewMsgInitiateTokenWithdrawal(who, to, sdk.NewInt64Coin(l2of(d.denom), 1)))
 		if !res.OK() {
 			return "rejected", nil
 		}
@@ -496,7 +503,7 @@ func init() {
 			res.Absorb("c08", rep)
 			res.Coverage["drains"] = y.drains.Load()
 			res.Coverage["drain_transitions"] = y.drainTx.Load()
-			res.Coverage["alphabet"] = "L1Deposit(alice; to∈{alice,garbage}; 1uxx|2uyy; data∈{∅, undecodable, a signed two-message hook tx in which the recipient withdraws half of the deposit again and sends the other half on}) ; L2Send; L2Withdraw(who∈{alice,bob}; l2x|l2y); RelayNextDeposit; RelayDuplicate; ProposeOutput(tree of all uncovered recorded withdrawals, independent builder); Challenge(delete newest); Advance(period); RestartL1ViaGenesis; RestartL2ViaGenesis (module genesis exported, validated, re-imported into the emptied store); Claim(any covered unpaid); ClaimAgain(a paid one)"
+			res.Coverage["alphabet"] = "L1Deposit(alice; to∈{alice,garbage}; 1uxx|2uyy; data∈{∅, undecodable, a signed two-message hook tx in which the recipient withdraws half of the deposit again and sends the other half on}) ; L2Send; L2Withdraw(who∈{alice,bob}; l2x|l2y; one with the L1 recipient spelled in upper case); RelayNextDeposit; RelayDuplicate; ProposeOutput(tree of all uncovered recorded withdrawals, independent builder); Challenge(delete newest); Advance(period); RestartL1ViaGenesis; RestartL2ViaGenesis (module genesis exported, validated, re-imported into the emptied store); Claim(any covered unpaid); ClaimAgain(a paid one)"
 			res.Coverage["oracle"] = "in every state and for both denoms: escrow_L1 = supply_L2 + pending deposits + recorded unpaid withdrawals (queues built from parsed events only); from every distinct state the deterministic drain (relay all, propose, advance, claim all) must make every claim succeed exactly once, a second claim fail, escrow = L2 supply and the users' combined holdings = initial holdings"
 			res.Assumptions = []string{"faithful relayer; both chains run in one process and are connected only by parsed events"}
 			for _, k := range []string{"RelayNextDeposit/relayed-credited", "RelayNextDeposit/relayed-refunded", "RelayDuplicate/noop", "ProposeOutput/accepted", "L2Withdraw/accepted"} {
